@@ -31,7 +31,7 @@ from vlib.shrink import shrink_seq
 
 ID = "C16"
 LEVEL = "exploration"
-BUDGET = {"quick": 100, "thorough": 900}
+BUDGET = {"quick": 200, "thorough": 1200}
 RULE = (
     "case = history of 2-12 calls (parse / encode / decode_simple_value / "
     "pvl_validate dialect parse+encode / pvl_translate encoder) with generated "
@@ -134,6 +134,11 @@ def build_shared(spec):
     return PVLModule(items)
 
 
+def build_new(spec):
+    import pvl.collections as pc
+    return gv.build_module(spec, pc.PVLModuleNew, pc.PVLGroupNew, pc.PVLObjectNew)
+
+
 def outcome_encode(encoder, spec, module=None):
     try:
         return ("text", encoder.encode(gv.build_module(spec) if module is None
@@ -183,6 +188,8 @@ def alone(arg):
         fresh.add_quantity_cls(c13.Metres, "value", "units")
     if kind == "encode":
         return _noaddr(outcome_encode(fresh, call[2]))
+    if kind == "encode-new":
+        return _noaddr(outcome_encode(fresh, call[2], build_new(call[2])))
     if kind == "encode-shared":
         return _noaddr(outcome_encode(fresh, call[2], build_shared(call[2])))
     if kind == "encode-q":
@@ -223,6 +230,15 @@ def run_history(history, stop_at_first=False, zyg=None):
             m = build_shared(spec)
             a = outcome_encode(inst[("encoder", e)], spec, m)
             b = outcome_encode(make_encoder(e), spec, m)
+            who = f"encoder:{e}"
+        elif kind == "encode-new":
+            # a module of the pvl.new container family (what pvl.new.load returns)
+            _, e, spec = call
+            fresh = make_encoder(e)
+            if e in registered:
+                fresh.add_quantity_cls(c13.Metres, "value", "units")
+            a = outcome_encode(inst[("encoder", e)], spec, build_new(spec))
+            b = outcome_encode(fresh, spec, build_new(spec))
             who = f"encoder:{e}"
         elif kind == "register":
             # a quantity class is registered on the long-lived encoder part-way through
@@ -326,6 +342,7 @@ def calls():
         st.tuples(st.just("vparse"), st.sampled_from(list(VALIDATE_FRESH)), t),
         *[st.tuples(st.just("encode"), st.just(e), specs(e)) for e in ENCODERS],
         st.tuples(st.just("register"), st.sampled_from(ENCODERS), st.none()),
+        *[st.tuples(st.just("encode-new"), st.just(e), small_specs(e)) for e in ENCODERS],
         *[st.tuples(st.just("encode-q"), st.just(e), small_specs(e)) for e in ENCODERS],
         *[st.tuples(st.just("vencode"), st.just(dn),
                     specs({"Omni": "PVL"}.get(dn, dn)))
@@ -569,6 +586,21 @@ def fixed_encodes(acc, enc):
             acc.event("fixed-encode-histories")
             if r is not None:
                 acc.fail(r[0], dict(history=[list(c) for c in hist]), r[1])
+    # modules of both container families in turn (pvl.load and pvl.new.load results
+    # handed to the same encoder)
+    blocks = [[["g", {"grp": [["x", 1]]}], ["k", 2]], [["o", {"obj": [["y", "z"]]}]],
+              [["o", {"obj": [["g", {"grp": [["x", 1]]}]]}], ["g", {"grp": [["a", 1]]}]]]
+    for a in blocks:
+        for b in blocks:
+            for kinds in (("encode", "encode-new", "encode"),
+                          ("encode-new", "encode", "encode-new"),
+                          ("encode-new", "encode-new", "encode")):
+                hist = [(kinds[0], enc, a), (kinds[1], enc, b), (kinds[2], enc, a)]
+                r = run_history(hist)
+                acc.case(key=repr(hist), nontrivial=True)
+                acc.event("fixed-encode-histories")
+                if r is not None:
+                    acc.fail(r[0], dict(history=[list(c) for c in hist]), r[1])
 
 
 def shards(tier, seed):
